@@ -14,7 +14,7 @@ def ctlStr : Control → String
   | .keepAlive => "ka"
   | .connect t => s!"co.{tokStr t}"
   | .accept => "ac"
-  | .close r => s!"cx.{toHex r}"
+  | .close r => s!"cx.{toHex (r.take 127)}"
   | .token t => s!"tk.{tokStr t}"
 
 def packetStr : Packet → String
